@@ -23,8 +23,8 @@ partial def normalize (arc : Bool) (s : St) (ths : Array Th) (t : Nat) : St × A
       | .loaded => normalize arc (step true s t (.read false)) ths t        -- decode + allocate: no hook point
       | .done _ => normalize arc (step true s t .reset) (ths.set! t { th with prog := rest }) t
       | _ => (s, ths)
-    else if !arc && op == 'X' && th.localCell == some true then
-      normalize arc s (ths.set! t { th with prog := rest }) t                -- deep-copied clone: no atomics
+    -- (a clone of a loaded owned-lazy value keeps its raw text and a private copy of the cache, /repo 0f7354f:
+    --  reading it is one load of its own cell, see `expectedKind` / `advance`)
     else if !arc && op == 'D' then
       normalize arc s (ths.set! t { th with prog := rest, localCell := none }) t  -- Box drop uses get_mut
     else if (op == 'X' || op == 'D') && th.localCell == none then
